@@ -3,3 +3,18 @@ claim('C05', 'fault_enumeration',
       'Every run is a simulated IdP->transport->SP delivery whose delay places the SP node clock (skew, zone) at a chosen bound +/- {1s,1ns,0}; the directed prefix enumerates bound kind x offset x assertion position x count x RFC3339 rendering x signature placement plus missing/malformed bounds, followed by seeded exploration; the oracle is the half-open interval model on instants. Sampling beyond the enumerated axes is evidence, not proof.',
       'trusted: the stub IdP signer (self-consistent with goxmldsig verification), Go time parsing for the reference instants; certificate windows kept decades wide',
       'DESIGN.md 4 C05')
+claim('C08', 'exploration',
+      'deterministic simulation: seeded federation runs, liveness after faults stop, equality with the IdP logical message',
+      'A stub IdP renders a logical message through a drawn layout (prefix style, pretty-printing, quoting, comments, CDATA, character references, attribute order), signs it itself (placement, digest, signature and canonicalisation methods, KeyInfo), optionally encrypts and compresses it; after optional earlier faults (garbage delivery, SP restart, key roll-over) the delivery inside all windows must be accepted and Response, AssertionInfo and the Values accessors must equal the logical message. Seeded sampling plus a directed prefix over placement x count x encryption x layout; a clean batch is evidence, not proof.',
+      'trusted: the stub renderer/signer/encryptor (each emitted signature is self-checked with goxmldsig directly; a failing self-check is a harness error); signed assertions that travel encrypted use exclusive c14n without prefix list',
+      'DESIGN.md 4 C08')
+claim('C03', 'exploration',
+      'deterministic simulation: seeded federation runs with a non-conforming IdP node, misrouting and delay faults; reference profile model',
+      'A genuinely signing but non-conforming IdP is wrong in exactly one of 22 respects at a drawn assertion position; the transport may misroute a response minted for another SP or delay it past expiry; every accept is checked against a reference profile model evaluated on the returned structure at the SP node clock, every single fault must yield the typed error naming the element. Directed prefix over fault x position x count x placement x issuer-configured, then seeded exploration.',
+      'trusted: stub IdP signer; error identity compared by Go type and SAML name only',
+      'DESIGN.md 4 C03')
+claim('C06', 'exploration',
+      'deterministic simulation: seeded federation workload with reference model and transport-perturbation invariance (thin fit)',
+      'Assertions scoped to this SP, another SP or near-miss audiences (0-3 restrictions x 0-3 audiences), OneTimeUse and ProxyRestriction are issued by the stub IdP, delivered with the SP clock inside or outside the Conditions window and with benign transport perturbations (duplicate, recompress, delay); the warnings must equal a three-line reference model at every delivery. No fault or schedule is essential to this property; the simulator contributes workload, model and invariance.',
+      'trusted: stub IdP; audience comparison is byte-exact as the property states',
+      'DESIGN.md 4 C06')
